@@ -25,6 +25,7 @@ import (
 	"time"
 
 	"github.com/prometheus/client_golang/prometheus"
+	apierrors "k8s.io/apimachinery/pkg/api/errors"
 	"k8s.io/apimachinery/pkg/util/sets"
 	"k8s.io/client-go/tools/cache"
 	glog "k8s.io/klog"
@@ -582,6 +583,11 @@ func (ci *crdIpam) AllocateInSubnetsAndIPRange(key string, nodeSubnet *net.IPNet
 				}
 				if err := ci.deleteFloatingIP(allocatedIPStrs[j]); err != nil {
 					glog.Errorf("failed to delete floatingIP %s: %v", allocatedIPStrs[j], err)
+					if !apierrors.IsNotFound(err) {
+						// the object is still stored, keep the ip allocated in memory as well instead of
+						// leaving it unallocated in memory but owned in the store
+						ci.syncCacheAfterCreate(allocatedFips[j])
+					}
 				}
 			}
 			return nil, err
